@@ -6,7 +6,7 @@ from harness.checks import common
 def run(chk):
     chk.rule = ('TLC enumerates restore transitions from seed states in which the destinations are free or occupied by '
                 'a file, a directory, a link or a dangling link, for every kind of trashed entry, single and two-index '
-                'replies in both orders, with and without --overwrite; non-trivial = something was restored or had '
+                'replies in both orders, with and without --overwrite; stage clobber-no-payload: the selected entry is an info WITHOUT payload and its location is free or occupied: whatever lives there stays, --overwrite or not; non-trivial = something was restored or had '
                 'to be refused; stage foreign-occupied: the entry comes from a foreign .trashinfo (Path percent-escaped in any way, '
                 'relative or absolute, with trailing slashes) and its location is occupied; distinct by operation x occupant/entry kinds x concrete names')
     chk.assumptions += common.ASSUME + ['--overwrite onto an existing directory is left open by the property (label undef)']
@@ -15,6 +15,7 @@ def run(chk):
                   strat=lambda g: (g['lab']['ow'], str(g['lab']['reply']['idx']), g['lab']['sort'],
                                    tuple(sorted((e['o'] for e in g['pre']['live']))),
                                    tuple(sorted(i['o'] for i in g['pre']['items']))), per_stratum=1)
+    common.gen_tt(chk, 'clobber-no-payload', 'Init_ClobberStray', 'Next_Clobber', 13, None, thorough_seeds=3)
     common.gen_tt(chk, 'clobber-same-destination', 'Init_ClobberSame', 'Next_ClobberSame', 13, None, thorough_seeds=2)
     # entries written by other implementations (any spelling of the Path line, trailing slashes included) whose location is
     # occupied by a file, a link to a file, a dangling link or a directory: refused, nothing changes (TLC: FunTrace "restored")
